@@ -1,4 +1,8 @@
+//! vf-prune: statistics pruning (C22) and interval arithmetic / constraint propagation (C23).
+mod c22;
+
 fn main() {
-    eprintln!("no sub-commands yet");
-    std::process::exit(2);
+    vf_kit::dispatch! {
+        "c22" => c22::C22,
+    }
 }
